@@ -86,6 +86,26 @@ def main():
             continue
         any_repro = False
         seen = set()
+        # attribution: a tagged assertion ("Cxx: ..." / "Cxx/Cyy: ...") counts only for the properties it names; untagged
+        # failures (Kani's own overflow / panic / bounds / unwinding checks) count for every property; the INV-preservation
+        # lemma (tag C05) is the subject of C05, C08, C17 and a mere premise of the other STEP-based properties
+        import re as _re
+        kept = []
+        premise_failed = False
+        for desc, hexvals in pbs:
+            m = _re.match(r'^((?:C\d\d/?)+):', desc)
+            tags = set(m.group(1).split('/')) if m else None
+            if tags is None or pid in tags:
+                kept.append((desc, hexvals))
+            elif 'C05' in tags and 'c05_step' in h:
+                if pid in ('C05', 'C08', 'C17'): kept.append((desc, hexvals))
+                else: premise_failed = True
+        if premise_failed and not kept:
+            inconclusive.append('%s: the representation invariant INV, a premise of this property\'s STEP lemmas, is not preserved (see C05)' % h)
+            continue
+        if not kept:
+            continue      # only assertions belonging to other properties failed in this shared harness
+        pbs = kept
         for desc, hexvals in pbs:
             rep = e1.native_replay(h, hexvals)
             traces_validated += 1
